@@ -2,7 +2,7 @@
 
 from hypothesis import strategies as st
 
-from vlib.core import Outcome, fail, sut, is_raised
+from vlib.core import Outcome, fail, sut, is_raised, Finding
 from vlib import typegen as tg
 from vlib import mat, assign
 from vlib import placement as pl
@@ -131,3 +131,21 @@ def run_case(case):
             return fail("neighbour_changed", f"after step {si} ({op['kind']}): {nv}", op["kind"], labels)
     nontrivial = executed >= 3 and len(vias) >= 2 and bool(labels & {"op:compound_struct", "op:compound_array", "op:grow"})
     return Outcome(True, labels=sorted(labels), nontrivial=nontrivial)
+
+
+# --------------------------------------------------------------------------
+# open known finding: stale item-offset cache of the constructor handle (known_findings.json)
+# --------------------------------------------------------------------------
+
+
+def _root_dynitems(case):
+    sp = case["type"]
+    return sp["k"] == "array" and tg.is_dynamic(sp["item"])
+
+
+FINDINGS = {
+    "C10-stale-root-handle": Finding(
+        has_feature=lambda case, out: _root_dynitems(case) and any(op["kind"] == "compound" and op["via"] != "handle" for op in case["ops"]),
+        neutralise=lambda case, out: dict(case, ops=[dict(op, via="handle") if op["kind"] == "compound" else op for op in case["ops"]]),
+    )
+}
